@@ -51,38 +51,83 @@ Definition num_eqb (b1 : Z) (u1 : string) (b2 : Z) (u2 : string) : bool :=
 Definition str_eqb (a b : cssstring) : bool :=
   match css_eq a b with Some r => r | None => false end.
 
-(* ---- impl PartialEq for Value ---- *)
-Fixpoint veq (a b : value) {struct a} : bool :=
-  match a, b with
+(* ---- impl PartialEq for Value ----
+   Map == Map is `a.len() == b.len() && a.iter().all(|(k, v)| b.get(k) == Some(v))`, where b.get
+   compares `stored_in_b == k` and the values as `v_b == v`: the operands from b come FIRST.
+   To keep structural recursion on one argument the definition is a pair: eqL x y is `x == y`,
+   eqR x y is `y == x`, both by recursion on x (Proofs/C13.v: eqR x y = eqL y x). *)
+Fixpoint eqL (x y : value) {struct x} : bool :=
+  match x, y with
   | VNum b1 u1 _, VNum b2 u2 _ => num_eqb b1 u1 b2 u2
-  | VStr x, VStr y => str_eqb x y
-  | VBool x, VBool y => Bool.eqb x y
+  | VStr a, VStr b => str_eqb a b
+  | VBool a, VBool b => Bool.eqb a b
   | VNull, VNull => true
   | VList xs s1 k1, VList ys s2 k2 =>
       (fix go (xs ys : list value) {struct xs} : bool :=
          match xs, ys with
          | [], [] => true
-         | x :: xs', y :: ys' => veq x y && go xs' ys'
+         | a :: xs', b :: ys' => eqL a b && go xs' ys'
          | _, _ => false
          end) xs ys && osep_eqb s1 s2 && Bool.eqb k1 k2
   | VMap xs, VMap ys =>
-      (fix go (xs ys : list (value * value)) {struct xs} : bool :=
-         match xs, ys with
-         | [], [] => true
-         | (k, v) :: xs', (k', v') :: ys' => veq k k' && veq v v' && go xs' ys'
-         | _, _ => false
-         end) xs ys
+      Nat.eqb (length xs) (length ys) &&
+      (fix all (xs : list (value * value)) {struct xs} : bool :=
+         match xs with
+         | [] => true
+         | (k, v) :: xs' =>
+             (fix get (ys : list (value * value)) : bool :=
+                match ys with
+                | [] => false
+                | (k', v') :: ys' => if eqR k k' then eqR v v' else get ys'
+                end) ys && all xs'
+         end) xs
   | VList xs _ _, VMap ys => match xs, ys with [], [] => true | _, _ => false end
   | VMap xs, VList ys _ _ => match xs, ys with [], [] => true | _, _ => false end
   | VArgs xs, VArgs ys =>
       (fix go (xs ys : list value) {struct xs} : bool :=
          match xs, ys with
          | [], [] => true
-         | x :: xs', y :: ys' => veq x y && go xs' ys'
+         | a :: xs', b :: ys' => eqL a b && go xs' ys'
+         | _, _ => false
+         end) xs ys
+  | _, _ => false
+  end
+with eqR (x y : value) {struct x} : bool :=       (* y == x *)
+  match x, y with
+  | VNum b1 u1 _, VNum b2 u2 _ => num_eqb b2 u2 b1 u1
+  | VStr a, VStr b => str_eqb b a
+  | VBool a, VBool b => Bool.eqb b a
+  | VNull, VNull => true
+  | VList xs s1 k1, VList ys s2 k2 =>
+      (fix go (xs ys : list value) {struct xs} : bool :=
+         match xs, ys with
+         | [], [] => true
+         | a :: xs', b :: ys' => eqR a b && go xs' ys'
+         | _, _ => false
+         end) xs ys && osep_eqb s2 s1 && Bool.eqb k2 k1
+  | VMap xs, VMap ys =>
+      (* y = VMap ys is the left operand: all of ys looked up in xs *)
+      Nat.eqb (length ys) (length xs) &&
+      forallb (fun kv : value * value =>
+         let (k, v) := kv in
+         (fix get (xs : list (value * value)) {struct xs} : bool :=
+            match xs with
+            | [] => false
+            | (k', v') :: xs' => if eqL k' k then eqL v' v else get xs'
+            end) xs) ys
+  | VList xs _ _, VMap ys => match ys, xs with [], [] => true | _, _ => false end
+  | VMap xs, VList ys _ _ => match ys, xs with [], [] => true | _, _ => false end
+  | VArgs xs, VArgs ys =>
+      (fix go (xs ys : list value) {struct xs} : bool :=
+         match xs, ys with
+         | [], [] => true
+         | a :: xs', b :: ys' => eqR a b && go xs' ys'
          | _, _ => false
          end) xs ys
   | _, _ => false
   end.
+
+Definition veq : value -> value -> bool := eqL.
 
 (* ---- Display for Formatted<Value>, introspection style ---- *)
 Definition t_true : list N := [116; 114; 117; 101].
